@@ -418,7 +418,10 @@ func (cr *caseRun) drainFrames() {
 	for {
 		n, _, _, closed := cr.cl.r.state()
 		if n < 9 {
-			if n == 0 && closed {
+			if closed {
+				// the server closed the connection; a truncated frame at the very end
+				// (its writer was interrupted) is dropped
+				cr.cl.r.discard()
 				cr.sawEOF = true
 			}
 			return
@@ -426,6 +429,10 @@ func (cr *caseRun) drainFrames() {
 		cr.cl.r.peek(hdr[:])
 		l := int(hdr[0])<<16 | int(hdr[1])<<8 | int(hdr[2])
 		if n < 9+l {
+			if closed {
+				cr.cl.r.discard()
+				cr.sawEOF = true
+			}
 			return
 		}
 		f, err := cr.fr.ReadFrame()
